@@ -63,6 +63,8 @@ type frame struct {
 	phiEnv  map[*ssa.BasicBlock]map[string]Val
 	bindings []ssa.Value
 	specMode bool
+	escapeAt map[ssa.Instruction][]string // escape point -> references that stop being private there
+	privRefs []privRef
 	privAllocs []privAlloc
 	s2a      map[ssa.Value]Val
 	matz     []matRec
@@ -425,6 +427,16 @@ func (f *frame) run(args []Val, st State, pathCond string) {
 			}
 		}
 		f.reach[b] = reach
+		if f.top && c.reachInfo != nil {
+			pos := ""
+			for _, in := range b.Instrs {
+				if in.Pos().IsValid() {
+					pos = c.eng.posString(in.Pos())
+					break
+				}
+			}
+			c.reachInfo[reach] = fmt.Sprintf("b%d %s %s", b.Index, b.Comment, pos)
+		}
 		if li := f.loopHdr[b]; li != nil {
 			stIn = f.enterLoop(li, reach, stIn)
 		}
@@ -434,6 +446,12 @@ func (f *frame) run(args []Val, st State, pathCond string) {
 		for _, in := range b.Instrs {
 			if _, ok := in.(*ssa.Phi); ok {
 				continue
+			}
+			if vs, ok := f.escapeAt[in]; ok {
+				for _, r := range vs {
+					pv := c.heapGet(cur.heap, privMem, privSort)
+					cur.heap = c.heapUpd(cur.heap, privMem, privSort, sto(pv, r, sFalse))
+				}
 			}
 			var stop bool
 			cur, stop = f.step(in, cur, reach)
@@ -526,6 +544,14 @@ func (f *frame) edgeOut(b *ssa.BasicBlock, reach string) {
 
 // loopWrites: the set of memory arrays that the body may write (nil = all).
 func (f *frame) loopKeep(li *loopInfo) func(string) bool {
+	ms := f.loopMods(li)
+	if ms.top {
+		return nil
+	}
+	return func(name string) bool { return !ms.has(name) }
+}
+
+func (f *frame) loopMods(li *loopInfo) *ModSet {
 	c := f.c
 	ms := newModSet()
 	for b := range li.body {
@@ -535,14 +561,14 @@ func (f *frame) loopKeep(li *loopInfo) func(string) bool {
 				if os.Getenv("GVC_DEBUG") == "loop" {
 					fmt.Fprintf(os.Stderr, "loop %d of %s: TOP because of %s at %s\n", li.ordinal, f.fn.Name(), in.String(), c.eng.posString(in.Pos()))
 				}
-				return nil
+				return ms
 			}
 		}
 	}
 	if os.Getenv("GVC_DEBUG") == "loop" {
 		fmt.Fprintf(os.Stderr, "loop %d of %s modifies: %v\n", li.ordinal, f.fn.Name(), ms.list())
 	}
-	return func(name string) bool { return !ms.has(name) }
+	return ms
 }
 
 func (f *frame) enterLoop(li *loopInfo, reach string, st State) State {
@@ -569,8 +595,22 @@ func (f *frame) enterLoop(li *loopInfo, reach string, st State) State {
 		nv := c.freshVal("lp_"+phi.Comment, phi.Type(), reach, "")
 		f.vals[phi] = nv
 	}
-	keep := f.loopKeep(li)
+	lms := f.loopMods(li)
+	var keep func(string) bool
+	if !lms.top {
+		keep = func(name string) bool { return !lms.has(name) }
+	}
 	nh := c.heapHavoc(st.heap, "loop", keep)
+	nh = c.restoreGlobals(st.heap, nh, lms)
+	for _, pr := range f.privRefs {
+		for _, e := range pr.escapes {
+			if li.body[e.Block()] {
+				pv := c.heapGet(nh, privMem, privSort)
+				nh = c.heapUpd(nh, privMem, privSort, sto(pv, pr.ref, sFalse))
+				break
+			}
+		}
+	}
 	na := c.fresh("alloc", "Int")
 	c.assume(reach, ge(na, st.alloc.term()))
 	nst := State{heap: nh, alloc: allocPtr{base: na}}
@@ -684,6 +724,7 @@ func (f *frame) step(in ssa.Instruction, st State, reach string) (State, bool) {
 			unknown := collectEscapes(x, 0, &esc)
 			if !unknown {
 				f.privAllocs = append(f.privAllocs, privAlloc{v: x, loc: l, escapes: esc})
+				st.heap = f.markPrivate(x, r, esc, st.heap)
 			}
 		}
 		return st, false
@@ -1012,6 +1053,35 @@ func collectEscapes(v ssa.Value, depth int, out *[]ssa.Instruction) bool {
 			if !onlyDeferred {
 				*out = append(*out, x)
 			}
+		case ssa.CallInstruction:
+			// library models (math/big, uint256, ...) do not retain their arguments
+			if callee, ok := x.Common().Value.(*ssa.Function); ok && lookupModel(callee) != nil && !x.Common().IsInvoke() {
+				if _, isGo := x.(*ssa.Go); !isGo {
+					// z.Op(...) returns z: the result is another name for the same object
+					sig := callee.Signature
+					if cv, isVal := x.(ssa.Value); isVal && sig.Recv() != nil && sig.Results().Len() >= 1 &&
+						types.Identical(sig.Results().At(0).Type(), sig.Recv().Type()) && len(x.Common().Args) > 0 && x.Common().Args[0] == v {
+						if sig.Results().Len() == 1 {
+							if collectEscapes(cv, depth+1, out) {
+								return true
+							}
+						} else {
+							// tuple result: follow the extraction of component 0
+							if crefs := cv.Referrers(); crefs != nil {
+								for _, cr := range *crefs {
+									if ex, ok := cr.(*ssa.Extract); ok && ex.Index == 0 {
+										if collectEscapes(ex, depth+1, out) {
+											return true
+										}
+									}
+								}
+							}
+						}
+					}
+					continue
+				}
+			}
+			*out = append(*out, x.(ssa.Instruction))
 		case ssa.Instruction:
 			*out = append(*out, x)
 		default:
@@ -1117,4 +1187,24 @@ func (f *frame) restoreLocals(old, nh *Heap, site ssa.Instruction) *Heap {
 		}
 	}
 	return nh
+}
+
+type privRef struct {
+	ref     string
+	escapes []ssa.Instruction
+}
+
+// markPrivate records that the object at ref is private until one of its escape points executes.
+func (f *frame) markPrivate(v ssa.Value, ref string, esc []ssa.Instruction, h *Heap) *Heap {
+	c := f.c
+	c.privUsed = true
+	if f.escapeAt == nil {
+		f.escapeAt = map[ssa.Instruction][]string{}
+	}
+	for _, e := range esc {
+		f.escapeAt[e] = append(f.escapeAt[e], ref)
+	}
+	f.privRefs = append(f.privRefs, privRef{ref: ref, escapes: esc})
+	pv := c.heapGet(h, privMem, privSort)
+	return c.heapUpd(h, privMem, privSort, sto(pv, ref, sTrue))
 }
